@@ -3,7 +3,13 @@ import numbers
 from collections.abc import Mapping, Sequence
 from typing import Any, Iterable
 
-from .const import INT_MAX_VALUE, INT_MIN_VALUE, LONG_MAX_VALUE, LONG_MIN_VALUE
+from .const import (
+    INT_MAX_VALUE,
+    INT_MIN_VALUE,
+    LONG_MAX_VALUE,
+    LONG_MIN_VALUE,
+    NAMED_TYPES,
+)
 from ._validate_common import ValidationError, ValidationErrorData
 from .schema import extract_record_type, extract_logical_type, schema_name, parse_schema
 from .logical_writers import LOGICAL_WRITERS
@@ -161,10 +167,11 @@ def _validate_union(datum, schema, named_schemas, parent_ns, raise_errors, optio
     if isinstance(datum, tuple) and not options.get("disable_tuple_notation"):
         (name, datum) = datum
         for candidate in schema:
-            if extract_record_type(candidate) == "record":
+            extracted_type = extract_record_type(candidate)
+            if extracted_type in NAMED_TYPES:
                 schema_name = candidate["name"]
             else:
-                schema_name = candidate
+                schema_name = extracted_type
             if schema_name == name:
                 return _validate(
                     datum,
